@@ -89,6 +89,15 @@ Order(strategy, list, tries, active, lat, rrPrev) ==
               => FirstPos(list, tries[1]) = (rrPrev % Len(list)) + 1
       [] OTHER -> TRUE                                              \* random: no order
 
+(* Round-robin over successive connections (see LiteRR.tla): on a duplicate-free list, among
+   any RRWindow(list) consecutive attempts every accepting backend is selected at least once.
+   sel = selected backend (canonical) of each attempt so far, <<>> when none accepted. *)
+RRWindow(list) == 2 * Len(list) + 2
+RRFair(strategy, list, up, sel) ==
+    (strategy = "round-robin" /\ Cardinality(CanonSet(list)) = Len(list) /\ Len(sel) >= RRWindow(list))
+      => \A c \in up \cap CanonSet(list) :
+            \E i \in (Len(sel) - RRWindow(list) + 1)..Len(sel) : sel[i] = c
+
 AttemptOK(strategy, list, tries, result, up, active, lat, rrPrev) ==
     /\ FromList(list, tries)
     /\ AtMostOnce(tries)
